@@ -11,6 +11,7 @@ package rosmar
 import (
 	"context"
 	"encoding/json"
+	"errors"
 	"expvar"
 	"fmt"
 	"sync/atomic"
@@ -32,7 +33,11 @@ func (bucket *Bucket) StartDCPFeed(
 	traceEnter("StartDCPFeed", "bucket=%s, args=%+v", bucket.GetName(), args)
 	// If no scopes are specified, return feed for the default collection, if it exists
 	if len(args.Scopes) == 0 {
-		return bucket.DefaultDataStore().(*Collection).StartDCPFeed(ctx, args, callback, dbStats)
+		collection, err := bucket.getOrCreateCollection(defaultDataStoreName, true)
+		if err != nil {
+			return err // e.g. ErrBucketClosed: DefaultDataStore() would return nil here
+		}
+		return collection.StartDCPFeed(ctx, args, callback, dbStats)
 	}
 
 	// Validate requested collections exist before starting feeds
@@ -40,7 +45,9 @@ func (bucket *Bucket) StartDCPFeed(
 	for scopeName, collections := range args.Scopes {
 		for _, collectionName := range collections {
 			collection, err := bucket.getCollection(sgbucket.DataStoreNameImpl{Scope: scopeName, Collection: collectionName})
-			if err != nil {
+			if errors.Is(err, ErrBucketClosed) {
+				return err
+			} else if err != nil {
 				return fmt.Errorf("DCPFeed args specified unknown collection: %s:%s", scopeName, collectionName)
 			}
 			requestedCollections = append(requestedCollections, collection)
